@@ -73,6 +73,20 @@ def setup(symbolic):
             return real_v2i(value, default)
         loader.patch_everywhere(real_v2i, value_to_int)
         R.Register.get_hex_value = lambda self, raw=False: HexNum(self.get_value(raw=raw))
+
+        class RawStr(str):
+            """the text 'RAW:<number>' of a symbolic number: prefix test and removal are the only string operations"""
+            def __new__(cls, v):
+                s = str.__new__(cls, "RAW:0x<sym>")
+                s.sym = v
+                return s
+
+            def __getitem__(self, i):
+                if isinstance(i, slice) and (i.start, i.stop, i.step) == (4, None, None):
+                    return HexNum(self.sym)
+                raise TypeError("unsupported string operation on a symbolic RAW: text")
+        global RAWSTR
+        RAWSTR = RawStr
         R.RegsBitField.get_hex_value = lambda self: HexNum(self.get_value())
         from symx import shims
         real_int = shims.sx_int.__new__
@@ -115,6 +129,11 @@ def cases(tier):
                 if cnt and (q and w not in (1, 8, W)):
                     continue
                 cs.append({"id": f"bf/W={W}/off={off}/w={w}/shr={cnt}", "h": "bf", "W": W, "off": off, "w": w, "cnt": cnt})
+                if cnt or w in (1, W):
+                    # writes that bypass the pre-processing: the value is the field content itself
+                    for mode in ("noprep", "rawstr"):
+                        cs.append({"id": f"bf/W={W}/off={off}/w={w}/shr={cnt}/{mode}", "h": "bf", "W": W, "off": off,
+                                   "w": w, "cnt": cnt, "mode": mode})
     for W in (8, 16, 24, 32, 64) + (() if q else (128, 256, 384, 512)):
         for rev in (False, True):
             for raw in (False, True):
@@ -187,11 +206,17 @@ def h_bf(env, c):
     hi = _add_bf(reg, "HI", off + w, W - off - w) if off + w < W else None
     init = env.int("init", 0, (1 << W) - 1)
     reg.set_value(init, raw=True)
-    v = env.int("v", -2, (1 << (w + cnt + 1)))
-    pre = v // (1 << cnt)  # documented pre-processing: shift right
+    mode = c.get("mode", "cooked")
+    v = env.int("v", -2 if mode != "rawstr" else 0, (1 << (w + cnt + 1)))
+    pre = v // (1 << cnt) if mode == "cooked" else v  # documented pre-processing: shift right
     fits = env.And(pre >= 0, pre < (1 << w))
     try:
-        tg.set_value(v)
+        if mode == "cooked":
+            tg.set_value(v)
+        elif mode == "noprep":
+            tg.set_value(v, no_preprocess=True)
+        else:
+            tg.set_enum_value(RAWSTR(v) if env.symbolic else f"RAW:{v:#x}")
         rejected = False
     except EX.SPSDKError:
         rejected = True
